@@ -7,10 +7,11 @@ from harness import pipeline as PL, solver as S
 
 SPEC = {
     "gen": ["Rotations"],
-    "modules": ["DiffcalcProofs.Props.C05"],
+    "modules": ["DiffcalcProofs.Props.C05", "DiffcalcProofs.Props.C05Geo"],
     "theorems": {"DiffcalcProofs.Props.C05": [
         "C05.virtualAngles_scale_ref", "C05.virtualAngles_scale_surf", "C05.normalised_smul_pos", "C05.cos_ttheta_geometric",
         "C05.sin_beta_geometric", "C05.qaz_geometric"],
+        "DiffcalcProofs.Props.C05Geo": ["C05.angleBetween_eq", "C05.betain_betaout_geometric"],
         "DiffcalcProofs.Props.C11": ["C11.virtualAngles_total"]},
     "level": "proof",
     "rule": "random positions over (-180,180]^6 and multiples of 30/45/90 deg, random UB (triclinic / cubic / hexagonal), reference and surface vectors set in "
